@@ -868,6 +868,7 @@ def check_C12(ctx):
     # design level: the merge loop, the intersection loop (shorter input iterated, binary search in the longer one) and insert as step machines;
     # loop invariants, termination and refinement of the set operations for every pair of sorted inputs over 1..5 (1..7 thorough)
     tlc(ctx, "mc/MC_GroupAlgo.cfg" if ctx.quick else "mc/MC_GroupAlgo7.cfg", "mc/MC_GroupAlgo.tla", workers=4, coverage=not ctx.quick)
+    tlaps(ctx, "MergeInduction.tla")     # unbounded: for arbitrary ascending inputs the merge invariant is inductive and the result is the union in ascending order
     out = tlc(ctx, "mc/MC_Group.cfg", "mc/MC_Group.tla", workers=4)["out"]
     s = hv(ctx, "replay-group", prop="C12", **{"in": out})
     ctx.traces += s.get("cases", 0)
